@@ -23,8 +23,7 @@ RULE = (
 ASSUMPTIONS = [
     "reference model mc/ref/rpatch.py (RFC 6902 section 4, functional), self-tested on RFC 6902 Appendix A",
     "documents compared as JSON values: typed, objects unordered, dict keys must be str",
-    "not generated: remove of the root, move from the root, negative tokens below the final position of a path (resolving "
-    "through them is the documented pointer extension; as the final token of a patch path '-1' is generated and must be refused)",
+    "not generated: remove of the root, move from the root",
     "a non-test failure may be reported by any JSONPatchError; a failed test must be JSONPatchTestFailure",
 ]
 
@@ -75,6 +74,14 @@ def menu_paths(doc):
                 paths.append(toks + ["#%d" % n])
                 # a negative number is not an RFC 6901 array index (JSONPointer resolves it from the end; RFC 6902 does not)
                 paths.append(toks + ["-1"])
+                # ... nor is it one on the way to the target: through the last element, when that is a container
+                last = v[-1]
+                if isinstance(last, dict) and last:
+                    paths.append(toks + ["-1", next(iter(last))])
+                elif isinstance(last, list):
+                    paths.append(toks + ["-1", "0" if last else "-"])
+                # '-0' is neither canonical nor a spelling of 0
+                paths.append(toks + ["-0"])
                 # canonical digits followed by a line break are not an index (int() and '$' both forgive the line break)
                 paths.append(toks + ["0\n"])
         else:
